@@ -1,7 +1,7 @@
 SPECIFICATION Spec
 CONSTANTS
   Names = {1, 2}
-  MaxEnv = 6
+  MaxEnv = 7
   MaxInc = 2
   MaxRaise = 1
 CHECK_DEADLOCK FALSE
